@@ -188,6 +188,8 @@ Theorem C18_checker_sound_api : forall c,
   let ops := index_from 0 (a_ops c) in
   let st0 := (a_init c, a_v0 c) in
   let succ := api_succ c in
+  (forall acq rel f, In (acq, rel) (a_holds c) -> In f (a_ops c) -> locked_done f = true ->
+     ~ (acq < o_call f /\ o_ret f < rel)) /\
   Permutation succ (filter succP ops) /\
   map (fun x => o_ver (snd x)) succ = zseq (a_v0 c + 1) (List.length succ) /\
   NoDup (map (fun x => o_ver (snd x)) succ) /\
